@@ -48,8 +48,12 @@ def md_ok(form) -> bool:
 
 
 def to_md(form) -> str:
+    return md_of_sheets(sheets_of(form))
+
+
+def md_of_sheets(sheets) -> str:
     lines = []
-    for name, head, rows in sheets_of(form):
+    for name, head, rows in sheets:
         lines.append(f"| {name} |")
         lines.append("| | " + " | ".join(md_cell(h) for h in head) + " |")
         for r in rows:
@@ -58,9 +62,13 @@ def to_md(form) -> str:
 
 
 def to_csv(form) -> str:
+    return csv_of_sheets(sheets_of(form))
+
+
+def csv_of_sheets(sheets) -> str:
     buf = io.StringIO(newline="")
     w = csv.writer(buf, lineterminator="\n")
-    for name, head, rows in sheets_of(form):
+    for name, head, rows in sheets:
         w.writerow([name])
         w.writerow(["", *head])
         for r in rows:
